@@ -256,6 +256,27 @@ func g1PointBytes(c *scalar, withTorsion bool) ([]byte, *pointE1) {
 	return b, &p
 }
 
+// zzC17_cancelling_torsion: two proofs that are both outside G1 but whose parts outside G1 cancel
+// (c1*g1 + T and c2*g1 - T): each proof must be checked on its own, so the pair is rejected for all keys and scalars
+func zzC17_cancelling_torsion() {
+	var x1, x2, c1, c2 scalar
+	nondetFrStar(&x1)
+	nondetFrStar(&x2)
+	nondetFr(&c1)
+	nondetFr(&c2)
+	pk1 := newPrKeyBLSBLS12381(&x1).PublicKey()
+	pk2 := newPrKeyBLSBLS12381(&x2).PublicKey()
+	p1, _ := g1PointBytes(&c1, true) // c1*g1 + T
+	m, _ := g1PointBytes(&c2, true)  // c2*g1 + T ...
+	p2 := append([]byte{}, m...)
+	p2[0] ^= 0x20 // ... negated through the sort bit of the compressed encoding: -c2*g1 - T
+	ok, err := SPOCKVerify(pk1, p1, pk2, p2)
+	verifAssert(bAnd(!ok, err == nil), "proofs outside G1 are rejected also when their parts outside G1 cancel in the sum")
+	ok, err = SPOCKVerify(pk2, p2, pk1, p1)
+	verifAssert(bAnd(!ok, err == nil), "in either order")
+	verifReach("spock cancelling torsion")
+}
+
 // zzC17_relation: SPOCKVerify(pk1, c1*g1 [+T], pk2, c2*g1 [+T]) is true exactly when both proofs are in G1
 // and c1*sk2 = c2*sk1; the verdict is symmetric in the two pairs.
 func zzC17_relation(tor1, tor2 bool) {
@@ -505,6 +526,16 @@ func zzC04_aggregate(n int, pattern int) {
 		assertEqBytes(reagg.Encode(), direct.Encode(), "with the same encoding")
 		back, _ := RemoveBLSPublicKeys(reagg, []PublicKey{skd.PublicKey()})
 		verifAssert(back.Equals(pks[0]), "and removing d again gives A")
+		// chained removals: the result of a removal is itself a valid aggregated key to remove from
+		withD, _ := AggregateBLSPublicKeys(append(append([]PublicKey{}, pks...), skd.PublicKey()))
+		step1, err := RemoveBLSPublicKeys(withD, []PublicKey{skd.PublicKey()})
+		verifAssert(bAnd(err == nil, step1.Equals(aggPk)), "Remove(Aggregate(A+B+d), d) = Aggregate(A+B)")
+		step2, err := RemoveBLSPublicKeys(step1, pks[1:])
+		verifAssert(bAnd(err == nil, step2.Equals(pks[0])), "Remove(Remove(Aggregate(A+B+d), d), B) = Aggregate(A)")
+		assertEqBytes(step2.Encode(), pks[0].Encode(), "with the same encoding")
+		step3, err := RemoveBLSPublicKeys(step2, pks[:1])
+		verifAssert(bAnd(err == nil, step3.Equals(IdentityBLSPublicKey())), "removing everything in several steps gives the identity key")
+		verifAssert(step3.(*pubKeyBLSBLS12381).isIdentity, "with the identity flag set")
 		all, _ := RemoveBLSPublicKeys(aggPk, pks)
 		verifAssert(all.Equals(IdentityBLSPublicKey()), "removing all keys gives the identity key")
 		verifAssert(all.(*pubKeyBLSBLS12381).isIdentity, "identity flag is recomputed")
